@@ -365,6 +365,32 @@ func run(r *Rng, tier string, n int) {
 			}
 		}
 	}
+	// EDNS0 Client Subnet: family x source prefix length x address octets present (fewer, exactly, more than
+	// the prefix needs), the option being the last thing in the message and also followed by another record
+	for fam, bits := range map[int]int{1: 32, 2: 128, 0: 0, 3: 8} {
+		for plen := 0; plen <= bits+8; plen += 1 + plen/40 {
+			for alen := 0; alen <= bits/8+1; alen++ {
+				if alen > 5 && alen != (plen+7)/8 && alen != (plen+7)/8-1 && alen != (plen+7)/8+1 && alen != bits/8 {
+					continue
+				}
+				rd := []byte{0, 8, 0, byte(4 + alen), byte(fam >> 8), byte(fam), byte(plen), 0}
+				rd = append(rd, r.Bytes(alen)...)
+				for _, tail := range []bool{false, true} {
+					g := hdr(0, 0)
+					g[11] = 1
+					if tail {
+						g[11] = 2
+					}
+					g = append(g, 0, 0, 41, 0x10, 0, 0, 0, 0, 0, byte(len(rd)>>8), byte(len(rd)))
+					g = append(g, rd...)
+					if tail {
+						g = append(g, 0, 0, 1, 0, 1, 0, 0, 0, 0, 0, 4, 0xEE, 0xEE, 0xEE, 0xEE)
+					}
+					hostile(g, alen == (plen+7)/8 || alen+1 == (plen+7)/8, "edns-subnet-shape")
+				}
+			}
+		}
+	}
 	for _, key := range []int{0, 1, 2, 3, 4, 5, 6, 7, 8, 9, 65280, 65535} {
 		for l := 0; l <= 34; l++ {
 			data := r.Bytes(l)
